@@ -510,6 +510,11 @@ loop:
 		// external triggers are reported as absolute frame*rows+row; convert to output-relative using this block's numbering
 		for _, rc := range b.externalTriggerRowcounts {
 			rel := rc - int64(ff)*int64(c.Rows) + int64(firstOfBlock[bi])*int64(c.Rows)
+			// a count is frame*rows+row of a row inside this very block, in the block's own frame numbering
+			if rc < int64(ff)*int64(c.Rows) || rc >= (int64(ff)+int64(n))*int64(c.Rows) {
+				return vFailf("external-trigger-outside-block", "block %d covers frames %d..%d (%d rows), yet it reports external-trigger count %d = frame %d row %d",
+					bi, ff, int64(ff)+int64(n)-1, c.Rows, rc, rc/int64(c.Rows), rc%int64(c.Rows))
+			}
 			ext = append(ext, rel)
 		}
 	}
@@ -740,11 +745,42 @@ loop:
 				return vFailf("false-drop", "block %d reports dropped frames although it ends before the first lost byte (frame %d)", dropBlock, firstBad)
 			}
 			if d0 < total {
-				if f, fl := wholeFrom(d0); f < 0 {
+				f, fl := wholeFrom(d0)
+				if f < 0 {
 					if fl != nil {
 						return *fl
 					}
 					return vFailf("not-realigned", "block %d reports dropped frames but from there on the output is not a run of whole frames the card sent after the loss (frames >= %d)", dropBlock, nextGood)
+				}
+				// external triggers of the re-aligned part: one count per rising edge, numbered with each block's own frames
+				var gotExt []int64
+				for _, x := range ext {
+					if x >= int64(d0)*int64(c.Rows) {
+						gotExt = append(gotExt, x)
+					}
+				}
+				okExt := false
+				var wantExt []int64
+				for _, init := range []bool{false, true} { // the flag state just before the re-aligned part is not known
+					wantExt = wantExt[:0]
+					last := init
+					for j := d0; j < total; j++ {
+						for r := 0; r < c.Rows; r++ {
+							fl := c.extFlag(f+(j-d0), r)
+							if fl && !last {
+								wantExt = append(wantExt, int64(j)*int64(c.Rows)+int64(r))
+							}
+							last = fl
+						}
+					}
+					if fmt.Sprint(gotExt) == fmt.Sprint(wantExt) {
+						okExt = true
+						break
+					}
+				}
+				if !okExt {
+					return vFailf("external-triggers-after-gap", "after the re-alignment at output frame %d the external-trigger counts (relative to the first emitted frame) are %v; the flag rose at %v",
+						d0, c04Head(gotExt), c04Head(wantExt))
 				}
 			}
 		}
